@@ -180,7 +180,7 @@ class FaultEnumScenario(WorldScenario):
             elif kind.startswith("cmd:"):
                 exe = kind[4:]
                 cmd_index[exe] = cmd_index.get(exe, 0) + 1
-                for fk in ("F1", "F2", "F3"):
+                for fk in ("F1", "F2", "F3", "F4"):
                     faults.append({"cmd_faults": [[exe, cmd_index[exe], fk]]})
                 faults.append({"kill_at": [i, "after"]})
             else:
